@@ -19,6 +19,77 @@ func init() {
 const ih = "(*internal/api.ImportHandler)."
 
 func runC31(c *Ctx) {
+	c.Rule("C31.SLAB", "WHO: in the in-process importers a window cut out of a shared backing slice is appended to only if it was cut with a full slice expression (s[lo:hi:max]); a 2-index window keeps the slab's remaining capacity, so an append past the estimate writes into the next column's cells instead of reallocating")
+	{
+		n := 0
+		for _, fn := range c.P.FuncsIn("internal/api") {
+			if !strings.Contains(c.P.Pos(fn.Pos()), "import_inprocess.go") {
+				continue
+			}
+			for _, in := range instrs(fn, true) {
+				sl, ok := in.(*ssa.Slice)
+				if !ok || sl.Max != nil || (sl.Low == nil && sl.High == nil) {
+					continue
+				}
+				if _, isSlice := sl.X.Type().Underlying().(*types.Slice); !isSlice {
+					continue
+				}
+				if _, made := sl.X.(*ssa.MakeSlice); !made {
+					continue
+				}
+				// does the window (possibly via a container) get appended to?
+				appended := false
+				var follow func(v ssa.Value, d int)
+				seen := map[ssa.Value]bool{}
+				follow = func(v ssa.Value, d int) {
+					if v == nil || seen[v] || d > 6 {
+						return
+					}
+					seen[v] = true
+					refs := v.Referrers()
+					if refs == nil {
+						return
+					}
+					for _, r := range *refs {
+						switch x := r.(type) {
+						case *ssa.Call:
+							if b, ok := x.Call.Value.(*ssa.Builtin); ok && b.Name() == "append" && x.Call.Args[0] == v {
+								appended = true
+							}
+						case *ssa.Store:
+							if x.Val == v {
+								// stored into a slice-of-slices element: any append on an element of that container counts
+								if ia, ok := x.Addr.(*ssa.IndexAddr); ok {
+									for _, in2 := range instrs(sl.Parent(), false) {
+										if ap, ok := in2.(*ssa.Call); ok {
+											if b, ok := ap.Call.Value.(*ssa.Builtin); ok && b.Name() == "append" {
+												if ld, ok := ap.Call.Args[0].(*ssa.UnOp); ok {
+													if ia2, ok := ld.X.(*ssa.IndexAddr); ok && ia2.X == ia.X {
+														appended = true
+													}
+												}
+											}
+										}
+									}
+								}
+							}
+						case *ssa.Phi:
+							follow(x, d+1)
+						}
+					}
+				}
+				follow(sl, 0)
+				if !appended {
+					continue
+				}
+				n++
+				c.Bad("C31.SLAB", fmt.Sprintf("%s|shared-window#%d", fn.Name(), n), sl.Pos(), "%s cuts a 2-index window out of a shared slab and appends to it: once a file has more rows than the estimate the append writes in place over the neighbouring column's early rows — the import reports success with the right row count and stores other rows' cells", fn.Name())
+			}
+		}
+		if n == 0 {
+			c.Triv("C31.SLAB", "import_inprocess|shared-windows", 0, "no appended-to window of a shared slab (the self-validation mutant keeps this rule exercised)")
+		}
+	}
 	c.Rule("C31.LATTICE", "DOM: in the CSV column type inference a candidate type is ruled out by a cell's own text, and its test may be skipped because another candidate is still alive only where that candidate's literals are a subset of its own (float may wait for int; int and bool wait for nobody) — otherwise cells seen while the other candidate was alive never get to rule it out, and a column such as `2,3,true,false` is stored as booleans")
 	if fn := c.MustFunc("C31.LATTICE", "internal/api.inferAndConvertColumn"); fn != nil {
 		allowed := map[string]map[string]bool{"isInt": {}, "isFloat": {"isInt": true}, "isBool": {}}
